@@ -68,7 +68,7 @@ pub fn tiny_code(name: &str) -> u32 {
         let mut m = BTreeMap::new();
         for b in 0..=255u32 {
             let mut buf = BytesMut::from(&[1u8, 3, 0, b as u8][..]);
-            let c = Codec::new(Mode::Compressed);
+            #[allow(unused_mut)] let mut c = Codec::new(Mode::Compressed);
             if let Some(Ok(Some(Packet::Tiny(t)))) = guard(std::panic::AssertUnwindSafe(move || c_decode(&c, &mut buf))) {
                 if let Some(s) = serde_json::to_value(&t.subt).unwrap().as_str() {
                     let _ = m.entry(s.to_string()).or_insert(b);
@@ -88,7 +88,7 @@ fn c_decode(c: &Codec, buf: &mut BytesMut) -> Result<Option<Packet>, insim::Erro
 pub fn classify(compressed: bool, frame: &[u8]) -> String {
     let f = frame.to_vec();
     let r = guard(move || {
-        let c = Codec::new(mode_of(compressed));
+        #[allow(unused_mut)] let mut c = Codec::new(mode_of(compressed));
         let mut buf = BytesMut::from(&f[..]);
         let r = c.decode(&mut buf);
         (r, buf.len())
@@ -177,6 +177,8 @@ fn hs_isi(reqi: u8) -> insim::insim::Isi {
     i
 }
 fn hs_suffix() -> String {
+    let slow = crate::transport::SLOW.with(|x| x.get());
+    if slow > 0 { return format!(" slow={}", slow); }
     if let Some(f) = PREWRITE.with(|p| p.borrow().clone()) { return format!(" pw={}", hex(&f)); }
     if let Some((n, r)) = MID_HANDSHAKE.with(|m| m.get()) { return format!(" mh={}:{}", n, r); }
     HANDSHAKE.with(|h| h.get()).map(|r| match HS_VERSION.with(|v| v.get()) { Some(v) => format!(" hs={}:{}", r, v), None => format!(" hs={}", r) }).unwrap_or_default()
@@ -186,6 +188,7 @@ fn parse_seventh(t: Option<&&str>) -> (Vec<WEv>, Option<u8>) {
     match t {
         Some(x) if x.starts_with("hs=") => { let mut it = x[3..].split(':'); let r = it.next().and_then(|v| v.parse().ok()); HS_VERSION.with(|h| h.set(it.next().and_then(|v| v.parse().ok()))); (vec![], r) },
         Some(x) if x.starts_with("mh=") => { let mut it = x[3..].split(':'); let n = it.next().and_then(|v| v.parse().ok()).unwrap_or(1); let r = it.next().and_then(|v| v.parse().ok()).unwrap_or(0); MID_HANDSHAKE.with(|m| m.set(Some((n, r)))); (vec![], None) },
+        Some(x) if x.starts_with("slow=") => { crate::transport::SLOW.with(|c| c.set(x[5..].parse().unwrap_or(0))); (vec![], None) },
         Some(x) if x.starts_with("pw=") => { PREWRITE.with(|p| *p.borrow_mut() = Some(unhex(&x[3..]))); (vec![], None) },
         Some(x) => (parse_wevents(x.trim_start_matches("ws=")), None),
         None => (vec![], None),
@@ -632,6 +635,7 @@ pub fn replay_line(ctx: &mut Ctx, prop: &str, l: &str) -> bool {
             MID_HANDSHAKE.with(|m| m.set(None));
             HS_VERSION.with(|h| h.set(None));
             VERIFY_TOGGLE.with(|t| t.set(false));
+            crate::transport::SLOW.with(|c| c.set(0));
             true
         },
         ["framed.read", fl, m, v, tbl, evs] | ["framed.read", fl, m, v, tbl, evs, _] => {
@@ -648,6 +652,7 @@ pub fn replay_line(ctx: &mut Ctx, prop: &str, l: &str) -> bool {
             MID_HANDSHAKE.with(|m| m.set(None));
             HS_VERSION.with(|h| h.set(None));
             VERIFY_TOGGLE.with(|t| t.set(false));
+            crate::transport::SLOW.with(|c| c.set(0));
             ctx.case(&op, &if r.trace.is_empty() { "-".to_string() } else { r.trace.join(";") });
             true
         },
@@ -815,6 +820,23 @@ pub fn generate_reads(ctx: &mut Ctx, prop: &str) {
                                 vec![Ev::Data(stream[..6120.min(stream.len())].to_vec()), Ev::Data(stream[6120.min(stream.len())..].to_vec()), Ev::Eof]] {
                         let _ = read_case(ctx, prop, &Case { fl, compressed, verify: false, frames: frames.clone(), events: evs, wscript: vec![] });
                     }
+                }
+            }
+        }
+        // 1g. a slow peer: the same frames dribbling in a few bytes at a time with 40 (virtual) seconds of silence before every
+        // piece — each silence far below the 90 s idle limit, their sum far above it. The result may depend on a single
+        // silence only, never on how many pieces a frame took (tokio; the blocking transport has no clock and ignores the waits)
+        {
+            let frames = vec![ping.clone(), vec![size_byte(compressed, 8), 4, 9, 6, 0xfd, 2, 0, 0], ka.clone(), ping.clone()];
+            let stream = frames.concat();
+            for fl in [Flavour::Blocking, Flavour::Tokio] {
+                for piece in [1usize, 3, 4, 16] {
+                    let mut evs = vec![];
+                    for c in stream.chunks(piece) { evs.push(Ev::Pending); evs.push(Ev::Data(c.to_vec())); }
+                    evs.push(Ev::Eof);
+                    crate::transport::SLOW.with(|c| c.set(40));
+                    let _ = read_case(ctx, prop, &Case { fl, compressed, verify: false, frames: frames.clone(), events: evs, wscript: vec![] });
+                    crate::transport::SLOW.with(|c| c.set(0));
                 }
             }
         }
@@ -1076,7 +1098,7 @@ pub fn pong_fault_case(ctx: &mut Ctx, fl: Flavour, compressed: bool, accepted_be
 
 /// decode a frame into a packet (for the write-side tests)
 pub fn packet_of(compressed: bool, frame: &[u8]) -> Option<Packet> {
-    let c = Codec::new(mode_of(compressed));
+    #[allow(unused_mut)] let mut c = Codec::new(mode_of(compressed));
     let mut buf = BytesMut::from(frame);
     guard(std::panic::AssertUnwindSafe(move || c.decode(&mut buf).ok().flatten())).flatten()
 }
